@@ -102,13 +102,16 @@ STYLES = {
 
 
 DECOY_KINDS = ["other-reg", "other-val", "other-reg-end", "other-val-end", "no-bytes", "no-bytes-end", "wrong-bytes",
-               "wrong-bytes-end"]
+               "wrong-bytes-end", "trailing-comment", "trailing-comment-end"]
 
 
 def decoy(isa, r):
     """(kind, lines).  Either the mov differs and the NOP bytes are the genuine ones, or the mov is the genuine one and
     the bytes are missing / are other bytes (same count or fewer, never the NOP bytes plus more)."""
     k = r.choice(DECOY_KINDS)
+    if k.startswith("trailing-comment"):
+        # an ordinary instruction whose trailing comment reads like a comment marker: a marker is a comment line of its own
+        return k, ["%s   %s %s" % (r.choice(FILL[isa]), cmt(isa, r), "OSACA-END" if k.endswith("end") else "OSACA-BEGIN")]
     if isa == "x86":
         good = ["100", "103", "144"]
         mov = {"other-reg": "movl $111, %eax", "other-val": "movl $112, %ebx", "other-reg-end": "movl $222, %ecx",
